@@ -8,6 +8,7 @@ package verifrt
 import (
 	"fmt"
 	"os"
+	"runtime"
 	"runtime/debug"
 	"strings"
 	"time"
@@ -20,6 +21,7 @@ type Event struct {
 }
 
 type Vector struct {
+	Confirm bool    `json:"confirm"` // true when replaying a counterexample (not a sampled witness)
 	ID      string  `json:"id"`
 	Harness string  `json:"harness"`
 	Tier    int     `json:"tier"`
@@ -145,6 +147,10 @@ func Observe(label string, v ...any) {
 // Symbolic reports whether the harness runs under the symbolic engine.
 func Symbolic() bool { return false }
 
+// Confirming reports whether the current native run replays a counterexample; harnesses that
+// invert a summary by search (e.g. find a key with a given hash) may spend more effort then.
+func Confirming() bool { return cur != nil && cur.vec.Confirm }
+
 // Tier is 0 for the quick tier and 1 for the thorough tier.
 func Tier() int {
 	if cur != nil {
@@ -156,10 +162,34 @@ func Tier() int {
 // Terminates declares that exhausting the instruction budget is a violation (label "terminates").
 func Terminates() {}
 
+// TolerateUnsupported: paths that reach code outside the engine's reach are reported as not covered
+// instead of making the check inconclusive.
+func TolerateUnsupported() {}
+
 // Budget sets the per-path instruction budget (engine only).
 func Budget(n int) {}
 
 func MapOrderAny() {}
+
+// Concurrent enables the exploration of goroutine interleavings with the given preemption bound
+// (engine only; natively goroutines simply run). Without it goroutines started by the code under
+// test are parked and never run.
+func Concurrent(preemptionBound int) {}
+
+// DrainGoroutines lets the goroutines started so far run until they block (engine); natively it
+// gives them 30ms.
+func DrainGoroutines() { time.Sleep(30 * time.Millisecond) }
+
+// Yield is a scheduling point (engine) / runtime.Gosched (native).
+func Yield() { runtime.Gosched() }
+
+// AdvanceTime lets virtual time pass (engine); natively it sleeps for min(d, 50ms).
+func AdvanceTime(d time.Duration) {
+	if d > 50*time.Millisecond {
+		d = 50 * time.Millisecond
+	}
+	time.Sleep(d)
+}
 
 // Stub redirects calls of the named function to repl under the engine only.
 func Stub(fullName string, repl any) {}
